@@ -2,7 +2,7 @@
    One theorem per reference operator: the set denoted by the reference result is the documented set.
    [fresh n s]: the system does not mention coordinate n (n = space dimension: used as scratch). *)
 From Coq Require Import List ZArith QArith.
-Require Import PPLV.Base.FM PPLV.Base.Sys PPLV.Base.Gens PPLV.Poly.PolyOps PPLV.Poly.GensLeast.
+Require Import PPLV.Base.FM PPLV.Base.Sys PPLV.Base.Gens PPLV.Poly.PolyOps PPLV.Poly.GensLeast PPLV.Poly.PolyGenOps.
 Import ListNotations.
 Local Open Scope Q_scope.
 
@@ -113,6 +113,11 @@ Proof.
   - intros H. exact (gens_valid_complete n c G W L LG NE H).
   - intros H. exact (gens_valid_sound n c G W L H).
 Qed.
+
+(* poly_hull_assign_if_exact: with h the hull, the Boolean is true exactly when the union is already convex *)
+Theorem C02_hull_if_exact_flag : forall n h p q b,
+  covered_by_union n h p q = Some b -> (b = true <-> forall x, sat_sys h x -> sat_sys p x \/ sat_sys q x).
+Proof. exact covered_by_union_exact. Qed.
 
 Example C02_nonvacuous :
   let s := sys_of_cons [ {| ccoefs := [1%Z; 0%Z]; ccst := 0%Z; ckd := GE |}; {| ccoefs := [(-1)%Z; (-1)%Z]; ccst := 3%Z; ckd := GE |} ] in
